@@ -33,7 +33,7 @@ func errClass(err error) sx.S {
 func main() {
 	r := rep.Open()
 	defer r.Close()
-	r.Rule = "27 message kinds x boundary grid (integers 0/1/0x7f../max, strings empty..65535 incl. non-UTF-8 and NUL, name/qid lists 0/1/16/17/300/65535, data 0..70000, every Dir field) + random; plus non-representable values (sub-second and out-of-range times) for the correspondence only. Non-trivial: every generated message; distinct by canonical text."
+	r.Rule = "27 message kinds x boundary grid (integers 0/1/0x7f../max, strings empty..65535 incl. non-UTF-8 and NUL, name/qid lists 0/1/16/17/300/65535, data 0..70000, every Dir field) + random; sweeps over EVERY string/data length 0..700 (thorough 0..4200) and 2^k-3..2^k+3 up to 65535 in each variable-length field, and every list count 0..40 and around 2^k, 65536/13, 65536/14 (thorough up to 65535); plus non-representable values (sub-second and out-of-range times) for the correspondence only. Non-trivial: every generated message; distinct by canonical text."
 	rng := prng.New(r.Seed)
 	codec := p9p.NewCodec()
 	per := r.N(80, 2500)
@@ -58,6 +58,88 @@ func main() {
 			one(r, codec, fc, wf)
 		}
 	}
+	// sweeps: EVERY length in an initial range and every length next to a power of two (a fast path,
+	// scratch buffer or narrower temporary is wrong at one length only), for each kind of
+	// variable-length field in turn
+	lens := []int{}
+	for l := 0; l <= r.N(700, 4200); l++ {
+		lens = append(lens, l)
+	}
+	for k := 9; k <= 16; k++ {
+		for d := -3; d <= 3; d++ {
+			if l := 1<<uint(k) + d; l > r.N(700, 4200) && l <= 65535 {
+				lens = append(lens, l)
+			}
+		}
+	}
+	fill := func(n int) string {
+		b := make([]byte, n)
+		for i := range b {
+			b[i] = byte('a' + (i*7+n)%26)
+		}
+		return string(b)
+	}
+	for i, l := range lens {
+		str := fill(l)
+		var m p9p.Message
+		switch i % 9 {
+		case 0:
+			m = p9p.MessageTversion{MSize: 8192, Version: str}
+		case 1:
+			m = p9p.MessageRerror{Ename: str}
+		case 2:
+			m = p9p.MessageTattach{Fid: 1, Afid: p9p.NOFID, Uname: str, Aname: "a"}
+		case 3:
+			m = p9p.MessageTattach{Fid: 1, Afid: p9p.NOFID, Uname: "u", Aname: str}
+		case 4:
+			m = p9p.MessageTcreate{Fid: 2, Name: str, Perm: 0644, Mode: 1}
+		case 5:
+			m = p9p.MessageTwalk{Fid: 1, Newfid: 2, Wnames: []string{"x", str}}
+		case 6:
+			d := wiregen.GenDir(rng)
+			d.Name, d.UID, d.GID, d.MUID = "n", "u", "g", "m"
+			switch (i / 9) % 4 {
+			case 0:
+				d.Name = str
+			case 1:
+				d.UID = str
+			case 2:
+				d.GID = str
+			default:
+				d.MUID = str
+			}
+			if 49+len(d.Name)+len(d.UID)+len(d.GID)+len(d.MUID) > 65535 {
+				continue // not a representable stat record
+			}
+			m = p9p.MessageRstat{Stat: d}
+		case 7:
+			m = p9p.MessageTwrite{Fid: 3, Offset: uint64(l), Data: []byte(str)}
+		default:
+			m = p9p.MessageRread{Data: []byte(str)}
+		}
+		t, _ := messageType(m)
+		one(r, codec, &p9p.Fcall{Type: t, Tag: p9p.Tag(i), Message: m}, true)
+	}
+	counts := []int{}
+	for n := 0; n <= 40; n++ {
+		counts = append(counts, n)
+	}
+	for _, n := range []int{255, 256, 257, 1023, 1024, 1025, 4095, 4096, 4097, 4680, 4681, 4682, 5040, 5041, 5042, 5043, 8191, 8192, 8193} {
+		counts = append(counts, n)
+	}
+	if r.N(0, 1) == 1 {
+		counts = append(counts, 16383, 16384, 16385, 21845, 21846, 32767, 32768, 32769, 65534, 65535)
+	}
+	for i, n := range counts {
+		names := make([]string, n)
+		qids := make([]p9p.Qid, n)
+		for j := range names {
+			names[j] = "ab"[:(i+j)%3]
+			qids[j] = p9p.Qid{Type: p9p.QType(j), Version: uint32(j), Path: uint64(j) << 20}
+		}
+		one(r, codec, &p9p.Fcall{Type: p9p.Twalk, Tag: p9p.Tag(i), Message: p9p.MessageTwalk{Fid: 1, Newfid: 2, Wnames: names}}, true)
+		one(r, codec, &p9p.Fcall{Type: p9p.Rwalk, Tag: p9p.Tag(i), Message: p9p.MessageRwalk{Qids: qids}}, true)
+	}
 	// directory entries on their own: EncodeDir
 	for i := 0; i < r.N(200, 5000); i++ {
 		d := wiregen.GenDir(rng)
@@ -72,6 +154,10 @@ func main() {
 			r.Fail("codec.EncodeDir.layout", "EncodeDir bytes differ from the manual's stat layout", c, map[string]interface{}{"want": fmt.Sprintf("%x", ref), "got": fmt.Sprintf("%x", b.Bytes())})
 		}
 	}
+}
+
+func messageType(m p9p.Message) (p9p.FcallType, bool) {
+	return m.Type(), true
 }
 
 func one(r *rep.Report, codec p9p.Codec, fc *p9p.Fcall, wf bool) {
